@@ -254,6 +254,9 @@ impl Check for C04 {
             "model order is Rust Ord of the key value (C15 checks that redb's byte comparators agree)".into(),
         ]
     }
+    fn fuzz_runs(&self) -> u64 {
+        400_000
+    }
     fn plan(&self, tier: Tier) -> Plan {
         Plan {
             cases: tier.pick(50_000, 1_500_000),
